@@ -2,7 +2,8 @@ import B6.Model.FeatureID
 /-!
 # Model of the shell printer and parser (C20)
 
-Mirrors, in /repo/src/diagonal.works/b6/api (with the fixes/C20-*.patch and fixes/C31-*.patch applied):
+Mirrors, in /repo/src/diagonal.works/b6/api (with the fixes/C20-*.patch and fixes/C31-*.patch applied; a parsed
+`lat, lng` has no position, as in the code — finding `latlng-span`):
 * `shell.go`  `UnparseExpression` and everything under it (`unparseExpression`, `unparsePipelinedCall`,
               `unparseCall`, `unparseLiteral`, `unparseLambda`, `UnparseQuery`, `unparseQuery`,
               `unparseSubquery`, `UnparseTag`, `EscapeTagKey`, `EscapeTagValue`, `UnparseString`,
@@ -492,8 +493,9 @@ def parseExpr : Nat → List PTok → PR (PE × List PTok)
   | 0, _ => .fuel
   | fuel + 1, ts =>
     match ts with
-    | ⟨.float lat, b, _⟩ :: ⟨.p 44, _, _⟩ :: ⟨.float lng, _, e⟩ :: rest =>
-      .ok (.mk (.lit (.point lat lng)) b e, rest)       -- fixes/C20-latlng-span.patch
+    | ⟨.float lat, _, _⟩ :: ⟨.p 44, _, _⟩ :: ⟨.float lng, _, _⟩ :: rest =>
+      -- `reduceLatLng` builds the point without `Begin`/`End` (finding `latlng-span`)
+      .ok (.mk (.lit (.point lat lng)) 0 0, rest)
     | ⟨.float _, _, _⟩ :: ⟨.p 44, _, _⟩ :: _ => .err
     | ⟨.float t, b, e⟩ :: rest => .ok (.mk (.lit (.float t)) b e, rest)
     | ⟨.str s, b, e⟩ :: rest => .ok (.mk (.lit (.str s)) b e, rest)
@@ -563,6 +565,21 @@ def PK.nestedIn : PK → Nat → Nat → Bool
 def PEL.nestedIn : PEL → Nat → Nat → Bool
   | .nil, _, _ => true
   | .cons x xs, b, e => decide (b ≤ x.b) && decide (x.e ≤ e) && x.nested && xs.nestedIn b e
+end
+
+mutual
+/-- no `lat, lng` literal anywhere in the parsed tree (`reduceLatLng` gives those no position) -/
+def PE.noPoint : PE → Bool
+  | .mk k _ _ => k.noPoint
+def PK.noPoint : PK → Bool
+  | .sym _ => true
+  | .lit (.point _ _) => false
+  | .lit _ => true
+  | .call f args _ => f.noPoint && args.noPoint
+  | .lambda _ body => body.noPoint
+def PEL.noPoint : PEL → Bool
+  | .nil => true
+  | .cons x xs => x.noPoint && xs.noPoint
 end
 
 /-! ## the parse-normal form of an expression, and the printable subset (executable) -/
